@@ -1,0 +1,29 @@
+//go:build verif
+
+// Contracts for the deductive verifier in /verif (comment-only; compiled only with -tags verif).
+package token
+
+// Genesis import (C12): the parameters, every listed token (under its symbol and its min unit) and every burned-coin
+// total are stored as listed. A duplicate symbol or min unit aborts the import (AddToken fails), so on every returning
+// path the listed tokens are pairwise distinct and none overwrites another.
+//@ func InitGenesis
+//@   property C12
+//@   requires forall i:Int :: forall j:Int :: 0 <= i && i < j && j < len(data.BurnedCoins) ==> data.BurnedCoins[i].Denom != data.BurnedCoins[j].Denom
+//@   requires forall d:Str :: !has(burned, d)
+//@   modifies tokens, byMinUnit, byOwner, byContract, burned, prm
+//@   invariant #1 idx:   rangeindex >= 0 - 1 && rangeindex < len(data.Tokens)
+//@   invariant #1 prm:   has(prm) && get(prm) == data.Params
+//@   invariant #1 burn:  burned == old(burned)
+//@   invariant #1 done:  forall j:Int :: 0 <= j && j <= rangeindex ==> has(tokens, data.Tokens[j].Symbol) && get(tokens, data.Tokens[j].Symbol) == data.Tokens[j]
+//@                          && has(byMinUnit, data.Tokens[j].MinUnit) && get(byMinUnit, data.Tokens[j].MinUnit) == data.Tokens[j].Symbol
+//@   invariant #2 idx:   rangeindex >= 0 - 1 && rangeindex < len(data.BurnedCoins)
+//@   invariant #2 prm:   has(prm) && get(prm) == data.Params
+//@   invariant #2 toks:  forall j:Int :: 0 <= j && j < len(data.Tokens) ==> has(tokens, data.Tokens[j].Symbol) && get(tokens, data.Tokens[j].Symbol) == data.Tokens[j]
+//@                          && has(byMinUnit, data.Tokens[j].MinUnit) && get(byMinUnit, data.Tokens[j].MinUnit) == data.Tokens[j].Symbol
+//@   invariant #2 burnt: forall j:Int :: 0 <= j && j <= rangeindex ==> has(burned, data.BurnedCoins[j].Denom) && get(burned, data.BurnedCoins[j].Denom) == data.BurnedCoins[j]
+//@   invariant #2 rest:  forall j:Int :: rangeindex < j && j < len(data.BurnedCoins) ==> !has(burned, data.BurnedCoins[j].Denom)
+//@   ensures params:   has(prm) && get(prm) == data.Params
+//@   ensures imported: forall j:Int :: 0 <= j && j < len(data.Tokens) ==> has(tokens, data.Tokens[j].Symbol) && get(tokens, data.Tokens[j].Symbol) == data.Tokens[j]
+//@                          && has(byMinUnit, data.Tokens[j].MinUnit) && get(byMinUnit, data.Tokens[j].MinUnit) == data.Tokens[j].Symbol
+//@   ensures burned_imported: forall j:Int :: 0 <= j && j < len(data.BurnedCoins) ==> has(burned, data.BurnedCoins[j].Denom) && get(burned, data.BurnedCoins[j].Denom) == data.BurnedCoins[j]
+//@ end
